@@ -234,6 +234,9 @@ pub fn run(cli: Cli) -> ! {
         rep.finish();
     }
     let all = specs(cli.tier.thorough());
+    for s in [&all[0], &all[all.len() / 2], &all[all.len() - 1]] {
+        assert_deterministic(&build(s), "C07");
+    }
     let distinct: Mutex<HashSet<String>> = Mutex::new(HashSet::new());
     let (dropped, transferred, kept_alive) = (AtomicU64::new(0), AtomicU64::new(0), AtomicU64::new(0));
     let transitions = AtomicU64::new(0);
